@@ -52,6 +52,8 @@ mod gen_fns {
         };
         tsc.set_checker(Arc::clone(&checker));
         let tsc = Arc::new(tsc);
+        #[cfg(flea1lt_sentinel_rust_verif)]
+        crate::verif::sched::point("lk:hotspot.checker:lock");
         let mut checker = checker.lock().unwrap();
         checker.set_owner(Arc::downgrade(&tsc));
         tsc
@@ -69,6 +71,8 @@ mod gen_fns {
         };
         tsc.set_checker(Arc::clone(&checker));
         let tsc = Arc::new(tsc);
+        #[cfg(flea1lt_sentinel_rust_verif)]
+        crate::verif::sched::point("lk:hotspot.checker:lock");
         let mut checker = checker.lock().unwrap();
         checker.set_owner(Arc::downgrade(&tsc));
         tsc
@@ -76,6 +80,8 @@ mod gen_fns {
 }
 
 pub fn get_traffic_controller_list_for(res: &String) -> Vec<Arc<Controller>> {
+    #[cfg(flea1lt_sentinel_rust_verif)]
+    crate::verif::sched::point("lk:hotspot.CONTROLLER_MAP:read");
     CONTROLLER_MAP
         .read()
         .unwrap()
@@ -96,6 +102,8 @@ fn log_rule_update(map: &RuleMap) {
 }
 
 pub fn append_rule(rule: Arc<Rule>) -> bool {
+    #[cfg(flea1lt_sentinel_rust_verif)]
+    crate::verif::sched::point("lk:hotspot.RULE_MAP:lock");
     if RULE_MAP
         .lock()
         .unwrap()
@@ -107,6 +115,8 @@ pub fn append_rule(rule: Arc<Rule>) -> bool {
     }
     match rule.is_valid() {
         Ok(_) => {
+            #[cfg(flea1lt_sentinel_rust_verif)]
+            crate::verif::sched::point("lk:hotspot.RULE_MAP:lock");
             RULE_MAP
                 .lock()
                 .unwrap()
@@ -125,7 +135,11 @@ pub fn append_rule(rule: Arc<Rule>) -> bool {
         }
     }
     let mut placeholder = Vec::new();
+    #[cfg(flea1lt_sentinel_rust_verif)]
+    crate::verif::sched::point("lk:hotspot.RULE_MAP:lock");
     let rule_map = RULE_MAP.lock().unwrap();
+    #[cfg(flea1lt_sentinel_rust_verif)]
+    crate::verif::sched::point("lk:hotspot.CONTROLLER_MAP:write");
     let mut controller_map = CONTROLLER_MAP.write().unwrap();
     // the helper moves every reused controller out of the old list into the new one,
     // so the new list is the complete set of controllers of the resource
@@ -164,6 +178,8 @@ pub fn load_rules(rules: Vec<Arc<Rule>>) -> bool {
         entry.insert(rule);
     }
 
+    #[cfg(flea1lt_sentinel_rust_verif)]
+    crate::verif::sched::point("lk:hotspot.RULE_MAP:lock");
     let mut global_rule_map = RULE_MAP.lock().unwrap();
     if *global_rule_map == rule_map {
         logging::info!(
@@ -192,6 +208,8 @@ pub fn load_rules(rules: Vec<Arc<Rule>>) -> bool {
     }
 
     let start = utils::curr_time_nanos();
+    #[cfg(flea1lt_sentinel_rust_verif)]
+    crate::verif::sched::point("lk:hotspot.CONTROLLER_MAP:write");
     let mut controller_map = CONTROLLER_MAP.write().unwrap();
     let mut valid_controller_map = HashMap::with_capacity(valid_rules_map.len());
 
@@ -229,7 +247,11 @@ pub fn load_rules_of_resource(res: &String, rules: Vec<Arc<Rule>>) -> Result<boo
         return Err(Error::msg("empty resource"));
     }
     let rules: HashSet<_> = rules.into_iter().collect();
+    #[cfg(flea1lt_sentinel_rust_verif)]
+    crate::verif::sched::point("lk:hotspot.RULE_MAP:lock");
     let mut global_rule_map = RULE_MAP.lock().unwrap();
+    #[cfg(flea1lt_sentinel_rust_verif)]
+    crate::verif::sched::point("lk:hotspot.CONTROLLER_MAP:write");
     let mut global_controller_map = CONTROLLER_MAP.write().unwrap();
     // clear resource rules
     if rules.is_empty() {
@@ -292,6 +314,8 @@ pub fn load_rules_of_resource(res: &String, rules: Vec<Arc<Rule>>) -> Result<boo
 // please release your lock on it before calling this func
 pub fn get_rules() -> Vec<Arc<Rule>> {
     let mut rules = Vec::new();
+    #[cfg(flea1lt_sentinel_rust_verif)]
+    crate::verif::sched::point("lk:hotspot.CONTROLLER_MAP:read");
     let controller_map = CONTROLLER_MAP.read().unwrap();
     for (_, controllers) in controller_map.iter() {
         for c in controllers {
@@ -305,6 +329,8 @@ pub fn get_rules() -> Vec<Arc<Rule>> {
 // This func acquires the lock on global `CONTROLLER_MAP`,
 // please release your locks on them before calling this func
 pub fn get_rules_of_resource(res: &String) -> Vec<Arc<Rule>> {
+    #[cfg(flea1lt_sentinel_rust_verif)]
+    crate::verif::sched::point("lk:hotspot.CONTROLLER_MAP:read");
     let controller_map = CONTROLLER_MAP.read().unwrap();
     let placeholder = Vec::new();
     let controllers = controller_map.get(res).unwrap_or(&placeholder);
@@ -319,7 +345,11 @@ pub fn get_rules_of_resource(res: &String) -> Vec<Arc<Rule>> {
 // This func acquires locks on global `RULE_MAP` and `CONTROLLER_MAP`,
 // please release your locks on them before calling this func
 pub fn clear_rules() {
+    #[cfg(flea1lt_sentinel_rust_verif)]
+    crate::verif::sched::point("lk:hotspot.RULE_MAP:lock");
     RULE_MAP.lock().unwrap().clear();
+    #[cfg(flea1lt_sentinel_rust_verif)]
+    crate::verif::sched::point("lk:hotspot.CONTROLLER_MAP:write");
     CONTROLLER_MAP.write().unwrap().clear();
 }
 
@@ -327,7 +357,11 @@ pub fn clear_rules() {
 // This func acquires locks on global `RULE_MAP` and `CONTROLLER_MAP`,
 // please release your locks on them before calling this func
 pub fn clear_rules_of_resource(res: &String) {
+    #[cfg(flea1lt_sentinel_rust_verif)]
+    crate::verif::sched::point("lk:hotspot.RULE_MAP:lock");
     RULE_MAP.lock().unwrap().remove(res);
+    #[cfg(flea1lt_sentinel_rust_verif)]
+    crate::verif::sched::point("lk:hotspot.CONTROLLER_MAP:write");
     CONTROLLER_MAP.write().unwrap().remove(res);
 }
 
@@ -342,6 +376,8 @@ pub fn set_traffic_shaping_generator(
 ) -> Result<()> {
     match control_strategy {
         ControlStrategy::Custom(_) => {
+            #[cfg(flea1lt_sentinel_rust_verif)]
+            crate::verif::sched::point("lk:hotspot.GEN_FUN_MAP:write");
             GEN_FUN_MAP
                 .write()
                 .unwrap()
@@ -359,6 +395,8 @@ pub fn set_traffic_shaping_generator(
 pub fn remove_traffic_shaping_generator(control_strategy: ControlStrategy) -> Result<()> {
     match control_strategy {
         ControlStrategy::Custom(_) => {
+            #[cfg(flea1lt_sentinel_rust_verif)]
+            crate::verif::sched::point("lk:hotspot.GEN_FUN_MAP:write");
             GEN_FUN_MAP.write().unwrap().remove(&control_strategy);
             Ok(())
         }
@@ -413,6 +451,8 @@ pub fn build_resource_traffic_shaping_controller(
             continue;
         }
 
+        #[cfg(flea1lt_sentinel_rust_verif)]
+        crate::verif::sched::point("lk:hotspot.GEN_FUN_MAP:read");
         let gen_fun_map = GEN_FUN_MAP.read().unwrap();
         let generator = gen_fun_map.get(&rule.control_strategy);
 
@@ -440,6 +480,16 @@ pub fn build_resource_traffic_shaping_controller(
         new_res_tcs.push(tc);
     }
     new_res_tcs
+}
+
+/// which of this module's locks are held right now (by anybody, the caller included)
+#[cfg(flea1lt_sentinel_rust_verif)]
+pub fn verif_locks_held() -> Vec<(&'static str, bool)> {
+    vec![
+        ("hotspot.GEN_FUN_MAP", GEN_FUN_MAP.try_write().is_err()),
+        ("hotspot.CONTROLLER_MAP", CONTROLLER_MAP.try_write().is_err()),
+        ("hotspot.RULE_MAP", RULE_MAP.try_lock().is_err()),
+    ]
 }
 
 #[cfg(test)]
